@@ -941,6 +941,9 @@ type c19Input struct {
 	Case    string `json:"case"`              // S-expression list of commands
 	Mode    string `json:"mode"`              // api | binary | gridn-rejected | gridn-tiny
 	Program string `json:"program,omitempty"` // evy source (binary / gridn-rejected)
+	// binary-overwrite: what the --svg-out file holds before the run, and how it was made
+	Existing     string `json:"existing,omitempty"`
+	ExistingKind string `json:"existing_kind,omitempty"`
 }
 
 func cmdsSX(h []gcmd) []SX {
@@ -1094,7 +1097,15 @@ var (
 )
 
 func runBinary(prog string, timeoutS int) (res c19BinResult, err error) {
+	return runBinaryOver(prog, nil, timeoutS)
+}
+
+// runBinaryOver: as runBinary; with existing != nil the output path already holds *existing when evy starts.
+func runBinaryOver(prog string, existing *string, timeoutS int) (res c19BinResult, err error) {
 	key := fmt.Sprintf("%d\x00%s", timeoutS, prog)
+	if existing != nil {
+		key += "\x00over\x00" + *existing
+	}
 	c19BinCacheMu.Lock()
 	if r, ok := c19BinCache[key]; ok {
 		c19BinCacheMu.Unlock()
@@ -1121,6 +1132,11 @@ func runBinary(prog string, timeoutS int) (res c19BinResult, err error) {
 	out := filepath.Join(dir, "out.svg")
 	if err := os.WriteFile(src, []byte(prog), 0o644); err != nil {
 		return c19BinResult{}, err
+	}
+	if existing != nil {
+		if err := os.WriteFile(out, []byte(*existing), 0o644); err != nil {
+			return c19BinResult{}, err
+		}
 	}
 	sh := fmt.Sprintf("ulimit -v 3000000; exec timeout -s KILL %d %q run --skip-sleep --svg-out %q %q", timeoutS, bin, out, src)
 	cmd := exec.Command("bash", "-c", sh)
@@ -1205,6 +1221,43 @@ func c19CaseSX(cmds []SX, in c19Input, model *Model, r *Result) {
 		if len(r.Samples) < 2 {
 			r.Sample(map[string]any{"mode": "api", "case": in.Case, "svg": string(doc)})
 		}
+	case "binary-overwrite":
+		// the --svg-out path already holds a file when evy starts: what evy leaves there must be the
+		// document alone (the one the same program writes to a fresh path, and the model's tree)
+		if rejectExpected || tiny || in.Program == "" {
+			return
+		}
+		fresh, err := runBinary(in.Program, 10)
+		if err != nil {
+			r.Violate(Violation{Kind: "correspondence", Key: "evy-binary", Detail: err.Error(), Input: in})
+			return
+		}
+		if fresh.timedOut || fresh.exit != 0 {
+			return // reported by mode binary
+		}
+		ex := in.Existing
+		res, err := runBinaryOver(in.Program, &ex, 10)
+		if err != nil {
+			r.Violate(Violation{Kind: "correspondence", Key: "evy-binary", Detail: err.Error(), Input: in})
+			return
+		}
+		r.Dist("existing:" + in.ExistingKind)
+		if res.timedOut || res.exit != 0 {
+			r.Violate(Violation{Kind: "property", Key: "svg-out-over-existing-file-fails", Detail: fmt.Sprintf("evy run --svg-out FILE with FILE already present (%d bytes): exit %d (timed out: %v): %s", len(ex), res.exit, res.timedOut, c19Tail(res.stderr, 300)), Input: in})
+			return
+		}
+		if !bytes.Equal(res.doc, fresh.doc) {
+			wf := "it is still well-formed XML"
+			if _, perr := parseSVG(res.doc); perr != nil {
+				wf = "it is not well-formed: " + perr.Error()
+			}
+			r.Violate(Violation{Kind: "property", Key: "svg-out-existing-file-not-replaced",
+				Detail: fmt.Sprintf("evy run --svg-out FILE over an existing FILE of %d bytes (%s) leaves %d bytes; the same program writes %d bytes to a fresh path and the two differ (first difference at byte %d); %s",
+					len(ex), in.ExistingKind, len(res.doc), len(fresh.doc), c19FirstDiff(res.doc, fresh.doc), wf),
+				Input: in, Impl: map[string]any{"svg": string(res.doc)}, Model: map[string]any{"fresh_path_svg": string(fresh.doc)}})
+			return
+		}
+		c19CheckDoc(res.doc, cmds, m, in, r)
 	case "binary", "gridn-rejected", "gridn-tiny":
 		to := 10
 		if rejectExpected {
@@ -1287,6 +1340,65 @@ func c19TinyUnbounded(u float64, cmds []SX, m *c19Model, in c19Input, r *Result)
 	}
 }
 
+func c19FirstDiff(a, b []byte) int {
+	i := 0
+	for i < len(a) && i < len(b) && a[i] == b[i] {
+		i++
+	}
+	return i
+}
+
+var c19ExistingKinds = []string{"longer-svg", "longer-svg", "same-document-plus-tail", "junk-longer", "one-byte-longer", "shorter-prefix", "empty", "same-length-junk", "much-longer-svg"}
+
+// c19Existing: the content the output file holds before the run, relative to the document `fresh`
+// the program writes to a fresh path (valid UTF-8, so that the replay file carries it verbatim).
+func c19Existing(rng *rand.Rand, kind string, fresh []byte) string {
+	junk := func(n int) string {
+		b := make([]byte, n)
+		for i := range b {
+			b[i] = " \n<>/=\"abcsvg0123456789-"[rng.Intn(24)]
+		}
+		return string(b)
+	}
+	apiDoc := func(minLen, cmdsMin int) string {
+		var acc []byte
+		for try := 0; try < 8; try++ {
+			h := genHistory(rng, cmdsMin+rng.Intn(30), true, nil)
+			cmds := cmdsSX(h)
+			if _, tiny := cmdsTiny(cmds); tiny || cmdsHang(cmds) || cmdsBelowMin(cmds) {
+				continue
+			}
+			doc, p := c19RunAPI(cmds)
+			if p != "" {
+				continue
+			}
+			if len(doc) > minLen {
+				return strings.ToValidUTF8(string(doc), "?")
+			}
+			acc = append(acc, doc...)
+		}
+		return strings.ToValidUTF8(string(acc), "?") + junk(minLen+1)
+	}
+	switch kind {
+	case "longer-svg":
+		return apiDoc(len(fresh), 10)
+	case "much-longer-svg":
+		return apiDoc(4*len(fresh)+1000, 40)
+	case "same-document-plus-tail":
+		tails := []string{"\n", "<!-- old -->\n", "</svg>\n", "<circle cx=\"1\" cy=\"1\" r=\"1\" />\n</svg>\n", " "}
+		return strings.ToValidUTF8(string(fresh), "?") + tails[rng.Intn(len(tails))]
+	case "junk-longer":
+		return junk(len(fresh) + 1 + rng.Intn(300))
+	case "one-byte-longer":
+		return junk(len(fresh) + 1)
+	case "shorter-prefix":
+		return strings.ToValidUTF8(string(fresh[:len(fresh)/2]), "?")
+	case "same-length-junk":
+		return junk(len(fresh))
+	}
+	return ""
+}
+
 func c19Tail(s string, n int) string {
 	if len(s) > n {
 		return s[len(s)-n:]
@@ -1360,6 +1472,7 @@ func runC19(cfg Config, r *Result) {
 		"arguments from nice and degenerate pools: 0, -0, negative, NaN (0/0), +-Inf, 1e30, 1e-30; empty and markup-like strings; " +
 		"about one call in five degenerate relative to the current state: line to the cursor (after move/line/rect, or `line 0 0` first), a repeated line, rect/circle/ellipse without extent, single-point and coincident-point poly, text \"\") " +
 		"run on svg.GraphicsPlatform in-process (mode api), as evy programs through the built binary `evy run --svg-out` (mode binary), " +
+		"the same programs with the --svg-out file already present (mode binary-overwrite: a longer / much longer earlier SVG document, the same document plus a tail, longer / one byte longer / same-length junk, a shorter prefix, an empty file; the file left must equal the fresh-path document byte for byte and match the model), " +
 		"with a positive gridn unit around the proposed minimum 0.01 (1e-17, 5e-324, 1e-13, 1e-6, 0.0099999, 0.01, 0.0100001; thorough: 0.001) through the binary under a short timeout (mode gridn-tiny), " +
 		"and with a gridn unit <= 0 through the binary under timeout/ulimit (mode gridn-rejected: exit 1, document of the calls before it); non-trivial = at least 2 drawing calls with a style change after a drawing call; " +
 		"distinct = distinct (mode, command list)"
@@ -1420,9 +1533,44 @@ func runC19(cfg Config, r *Result) {
 		r.Note("wall: api cases %.1fs, go build evy %.1fs, binary cases %.1fs", tAPI.Seconds(), tBuild.Seconds(), time.Since(t0).Seconds())
 	}()
 	nBin := cfg.N(24, 300)
+	var binHs [][]gcmd
 	for i := 0; i < nBin; i++ {
-		c19Case(genHistory(cfg.Rng, 1+cfg.Rng.Intn(maxLen), false, nil), "binary", model, r)
+		h := genHistory(cfg.Rng, 1+cfg.Rng.Intn(maxLen), false, nil)
+		binHs = append(binHs, h)
+		c19Case(h, "binary", model, r)
 	}
+	// the same programs once more, the output file already present (own generator: the cases above stay as they were)
+	tOver := time.Now()
+	orng := rand.New(rand.NewSource(cfg.Rng.Int63()))
+	var overIns []c19Input
+	var overCmds [][]SX
+	for i, h := range binHs {
+		prog := evyProgram(h)
+		fresh, err := runBinary(prog, 10) // cached
+		if err != nil || fresh.timedOut || fresh.exit != 0 || len(fresh.doc) == 0 {
+			continue
+		}
+		kind := c19ExistingKinds[i%len(c19ExistingKinds)]
+		cmds := cmdsSX(h)
+		in := c19Input{Case: LstOf(cmds).String(), Mode: "binary-overwrite", Program: prog, ExistingKind: kind, Existing: c19Existing(orng, kind, fresh.doc)}
+		overIns, overCmds = append(overIns, in), append(overCmds, cmds)
+	}
+	// the runs are independent processes: started four at a time (the results are cached), judged in order
+	sem := make(chan struct{}, 4)
+	var owg sync.WaitGroup
+	for i, in := range overIns {
+		if _, tiny := cmdsTiny(overCmds[i]); tiny || cmdsHang(overCmds[i]) || cmdsBelowMin(overCmds[i]) {
+			continue // not run by the case either
+		}
+		owg.Add(1)
+		sem <- struct{}{}
+		go func(prog, ex string) { defer owg.Done(); runBinaryOver(prog, &ex, 10); <-sem }(in.Program, in.Existing)
+	}
+	owg.Wait()
+	for i, in := range overIns {
+		c19CaseSX(overCmds[i], in, model, r)
+	}
+	r.Note("wall: binary-overwrite cases %.1fs (within the binary cases)", time.Since(tOver).Seconds())
 	c19Rejected(model, r)
 	nHang := cfg.N(4, 40)
 	for i := 0; i < nHang; i++ {
